@@ -60,6 +60,50 @@ ObsOf(r) == IF IsFlt(r.t) THEN (LET c == FToInt("llong", r.v) IN IF c.ok THEN [o
 
 Out(rec) == PrintT("VCASE " \o ToJson(rec))
 
+(* ---- operator chains written WITHOUT parentheses: e1 op1 e2 op2 e3 [op3 e4] ----                                         *)
+(* The grammar of 6.5.5-6.5.14 decides which operands belong to which operator: every production has the form              *)
+(*   X-expression: Y-expression | X-expression op Y-expression      (Y the next tighter level, 6.5.5 ... 6.5.14)           *)
+(* so in a chain the root is the RIGHTMOST operator of the LOWEST level; Lvl is the level of the production that          *)
+(* introduces the operator (multiplicative 10 ... logical-OR 1).  The expected value is obtained by applying CSem's own    *)
+(* operators along that tree; the harness prints the bare token sequence, the compiler has to find the tree.               *)
+ChainOpSeq == <<"*", "/", "%", "+", "-", "<<", ">>", "<", "<=", ">", ">=", "==", "!=", "&", "^", "|", "&&", "||">>
+ChainOps == {ChainOpSeq[i] : i \in 1..Len(ChainOpSeq)}
+Lvl(op) == CASE op \in {"*", "/", "%"} -> 10 [] op \in {"+", "-"} -> 9 [] op \in {"<<", ">>"} -> 8 [] op \in {"<", "<=", ">", ">="} -> 7
+             [] op \in {"==", "!="} -> 6 [] op = "&" -> 5 [] op = "^" -> 4 [] op = "|" -> 3 [] op = "&&" -> 2 [] op = "||" -> 1
+(* trees over the operands lo..hi: leaf <<i>>, node <<k, L, R>> with operator ops[k] standing between operand k and k+1 *)
+RECURSIVE AllTrees(_, _)
+AllTrees(lo, hi) == IF lo = hi THEN {<<lo>>}
+                    ELSE UNION {{<<k, L, R>> : L \in AllTrees(lo, k), R \in AllTrees(k + 1, hi)} : k \in lo..(hi - 1)}
+RECURSIVE GrammarTree(_, _, _)
+GrammarTree(ops, lo, hi) ==
+  IF lo = hi THEN <<lo>>
+  ELSE LET m == CHOOSE x \in {Lvl(ops[i]) : i \in lo..(hi - 1)} : \A i \in lo..(hi - 1) : x <= Lvl(ops[i])
+           k == CHOOSE i \in lo..(hi - 1) : Lvl(ops[i]) = m /\ \A j \in (i + 1)..(hi - 1) : Lvl(ops[j]) # m
+       IN <<k, GrammarTree(ops, lo, k), GrammarTree(ops, k + 1, hi)>>
+ChainBin(op, x, y) ==        \* x, y results (RV or Bad); && and || do not evaluate their right operand when the left one decides (6.5.13p4, 6.5.14p4)
+  IF ~x.ok THEN x
+  ELSE IF op = "&&" THEN (IF IsZero(x.v) THEN RV(TInt, Zero) ELSE IF ~y.ok THEN y ELSE RV(TInt, BoolW(~IsZero(y.v))))
+  ELSE IF op = "||" THEN (IF ~IsZero(x.v) THEN RV(TInt, One) ELSE IF ~y.ok THEN y ELSE RV(TInt, BoolW(~IsZero(y.v))))
+  ELSE IF ~y.ok THEN y ELSE BinCase(op, x.t.n, y.t.n, x.v, y.v)
+RECURSIVE EvalTree(_, _, _, _)
+EvalTree(tr, ops, tys, vals) == IF Len(tr) = 1 THEN RV(IntT(tys[tr[1]]), Canon(tys[tr[1]], vals[tr[1]]))
+                                ELSE ChainBin(ops[tr[1]], EvalTree(tr[2], ops, tys, vals), EvalTree(tr[3], ops, tys, vals))
+IW(n) == IF n < 0 THEN Neg(W(-n)) ELSE W(n)
+ChainTuples == <<<<7, 2, 3, 5>>, <<1, 2, 3, 1>>, <<2, 3, 1, 2>>, <<5, 1, 2, 3>>, <<3, 3, 2, 1>>, <<0, 1, 2, 3>>, <<2, 0, 1, 1>>, <<1, 1, 0, 2>>,
+                 <<6, 2, 2, 1>>, <<1, 5, 3, 2>>, <<2, 2, 2, 2>>, <<3, 1, 1, 0>>, <<-1, 2, 3, 1>>, <<4, -1, 2, 1>>, <<1, 2, -3, 2>>, <<8, 4, 2, 1>>,
+                 <<0, 0, 1, 1>>, <<1, 0, 0, 1>>, <<12, 5, 3, 2>>, <<2, 7, 1, 4>>>>
+ChainVals(i) == [j \in 1..4 |-> IW(ChainTuples[i][j])]
+ChainTypeSets == <<<<"int", "int", "int", "int">>, <<"uint", "int", "long", "uchar">>>>
+(* first operand tuple on which the grammar's tree is defined and the other tree w gives a different defined value (0: none) *)
+RECURSIVE FirstDist(_, _, _, _, _)
+FirstDist(g, w, ops, tys, i) ==
+  IF i > Len(ChainTuples) THEN 0
+  ELSE LET c == EvalTree(g, ops, tys, ChainVals(i)) IN
+       IF c.ok /\ (LET x == EvalTree(w, ops, tys, ChainVals(i)) IN x.ok /\ (x.v # c.v \/ x.t # c.t)) THEN i
+       ELSE FirstDist(g, w, ops, tys, i + 1)
+RECURSIVE FirstDefined(_, _, _, _)
+FirstDefined(g, ops, tys, i) == IF i > Len(ChainTuples) THEN 0 ELSE IF EvalTree(g, ops, tys, ChainVals(i)).ok THEN i ELSE FirstDefined(g, ops, tys, i + 1)
+
 EmitAll ==
   CASE cas.kind = "bin" ->
          \A a \in Vals(cas.lt), b \in Vals(cas.rt) :
@@ -96,9 +140,22 @@ EmitAll ==
            LET r == FloatBin(cas.op, AsRV(cas.lt, a), AsRV(cas.rt, b))
                o == IF r.ok THEN ObsOf(r) ELSE r IN
            o.ok => Out([k |-> "fbin", op |-> cas.op, lt |-> cas.lt, rt |-> cas.rt, xa |-> a, xb |-> b, t |-> IF IsFlt(r.t) THEN r.t.n ELSE "int", v |-> o.v, cs |-> CharSigned])
+    [] cas.kind = "chain" ->     \* e1 op1 e2 op2 e3 [op3 e4] without parentheses, operands of the types cas.tys
+         LET n == Len(cas.ops) + 1
+             g == GrammarTree(cas.ops, 1, n)
+             ds == {FirstDist(g, w, cas.ops, cas.tys, 1) : w \in AllTrees(1, n) \ {g}} \ {0}
+             is == IF ds = {} THEN {FirstDefined(g, cas.ops, cas.tys, 1)} \ {0} ELSE ds
+         IN \A i \in is :
+              LET r == EvalTree(g, cas.ops, cas.tys, ChainVals(i)) IN
+              Out([k |-> "chain", op |-> "chain", ops |-> cas.ops, tys |-> cas.tys, lt |-> "int", rt |-> "int", vals |-> [j \in 1..n |-> Canon(cas.tys[j], ChainVals(i)[j])],
+                   tree |-> g, t |-> r.t.n, v |-> r.v, cs |-> CharSigned])
     [] cas.kind = "cast" ->
          \A a \in Vals(cas.lt) :
            Out([k |-> "cast", lt |-> cas.lt, rt |-> cas.rt, a |-> a, t |-> cas.rt, v |-> Conv(cas.rt, a), cs |-> CharSigned])
+
+ChainCases ==
+  {[kind |-> "chain", op |-> "chain", lt |-> "int", rt |-> "int", ops |-> <<o1, o2>>, tys |-> ChainTypeSets[ts]] : o1 \in ChainOps, o2 \in ChainOps, ts \in 1..Len(ChainTypeSets)}
+  \cup {[kind |-> "chain", op |-> "chain", lt |-> "int", rt |-> "int", ops |-> <<o1, o2, o3>>, tys |-> ChainTypeSets[1]] : o1 \in ChainOps, o2 \in ChainOps, o3 \in ChainOps}
 
 Cases ==
   {[kind |-> "bin", op |-> o, lt |-> l, rt |-> r] : o \in BinOpsC, l \in Types, r \in Types}
@@ -114,6 +171,7 @@ Cases ==
   \cup {[kind |-> "fbin", op |-> o, lt |-> l, rt |-> r] : o \in {"+", "-", "*", "/", "<", "<=", ">", ">=", "==", "!="},
             l \in FTypes, r \in FTypes \cup {"char", "int", "uint", "long", "ulong"}}
   \cup {[kind |-> "fbin", op |-> o, lt |-> l, rt |-> r] : o \in {"-", "/", "<"}, l \in {"int", "ulong"}, r \in FTypes}
+  \cup ChainCases
 
 TypeSeq == <<"bool", "char", "schar", "uchar", "short", "ushort", "int", "uint", "long", "ulong", "llong", "ullong", "float", "double">>
 OpSeq == <<"+", "-", "*", "/", "%", "&", "|", "^", "<<", ">>", "<", "<=", ">", ">=", "==", "!=", "~", "!", "cast">>
@@ -122,10 +180,14 @@ Hash(c) == IndexIn(OpSeq, c.op) * 7 + IndexIn(TypeSeq, c.lt) * 13 + IndexIn(Type
 Part == IF NParts = 1 THEN 0 ELSE atoi(IOEnv.OPCASES_PART)
 NPartsF == IF NParts = 1 THEN 1 ELSE 4            \* the floating-point product is smaller: cut into fewer slices
 InSlice(c) == IF c.kind = "fbin" THEN Hash(c) % NPartsF = Part % NPartsF ELSE Hash(c) % NParts = Part
+(* chains: every pair of operators always; triples cut into 8 slices when the case space is sliced at all *)
+ChainHash(c) == IndexIn(ChainOpSeq, c.ops[1]) * 7 + IndexIn(ChainOpSeq, c.ops[2]) * 3 + IndexIn(ChainOpSeq, c.ops[3])
+ChainInSlice(c) == Len(c.ops) = 2 \/ NParts = 1 \/ ChainHash(c) % 8 = Part % 8
+Selected(c) == IF c.kind = "chain" THEN ChainInSlice(c) ELSE c.kind \in {"cast", "un", "cast2", "f2i", "i2f", "bincast"} \/ InSlice(c)
 
 (* the second program of C_PROGS has unsigned plain char: only cases mentioning char differ *)
 OInit == /\ cpid \in 1..Len(CProgs)
-         /\ cas \in {c \in Cases : c.kind \in {"cast", "un", "cast2", "f2i", "i2f", "bincast"} \/ InSlice(c)}     \* conversions and unary ops are always enumerated completely
+         /\ cas \in {c \in Cases : Selected(c)}     \* conversions, unary ops and operator pairs are always enumerated completely
          /\ (cpid > 1 => "char" \in {cas.lt, cas.rt} \/ (cas.kind \in {"cast2", "bincast"} /\ cas.mt = "char"))
          /\ ck = <<>> /\ env = <<>> /\ genv = <<>> /\ mem = <<>> /\ cout = <<>> /\ cstatus = "gen" /\ cret = Zero /\ cfuel = 0 /\ depth = 0
 ONext == UNCHANGED ovars
